@@ -326,8 +326,9 @@ def _numeric_worker(item):
         g2, w2 = core.close(rcov, rS, 1e-7, 1e-9)
         emit(op, cell + ("" if g1 and g2 else ("/mean" if not g1 else "/covariance")), g1 and g2,
              "%s(%s): mean %s covariance %s" % (op, param, w1 or "ok", w2 or "ok"), key, nontrivial=nt, sample=(op == "unsqueeze" and len(db) == 2 and param == 1))
-        if op in ("expand", "unsqueeze") and g1 and g2:
-            # the reshaped distribution is still usable: log_prob on both paths
+        if g1 and g2:
+            # the resulting distribution is still the distribution it claims to be: log_prob on both paths (a derived object may
+            # carry a reused Cholesky factor that mean / covariance do not show)
             gen = torch.Generator().manual_seed(seed + 77)
             Y = torch.randn(*bs, n, generator=gen, dtype=torch.float64)
             ref = ref_logpdf(torch, Y, rm, rS)
